@@ -20,8 +20,9 @@ class C14(Spec):
             "last read; over the limit every read that fits reports need-more-data, the first read crossing the limit is "
             "refused (answered 413 by onInput) and completion is never reported. non-trivial = at least two reads; "
             "distinct by case line")
-    assumptions = ["refusal is observed at ParserBase::feed (Handler::onInput turns it into 413 + reset; that mapping is the "
-                   "modelled on_input, checked at server level only in the thorough tier)",
+    assumptions = ["at parser level refusal is observed at ParserBase::feed; Handler::onInput (413, nothing after a refusal) is compared "
+                   "with HandlerModel.serve on a live endpoint in the second correspondence (Z cases)",
+                   "pipelined requests (two requests in one read) are not supported by Handler::onInput (one request per read, the rest of the read is dropped): reads carry at most one request",
                    "wall-clock behaviour of the 500 ms idle scan is a runtime residue: the theorem is about the decision rule"]
 
     def __init__(self):
@@ -109,6 +110,95 @@ def timeout_cases(rng, tier):
     return cases
 
 
+def size_cases(rng, tier):
+    """Live endpoint: a POST whose total size sits around the limit, delivered whole, head|body, at the limit, in three reads
+    (separate reads: the budget must accumulate over the pieces of one request); what follows a refusal; pipelined requests."""
+    cases = []
+    def post(path, body):
+        return b"POST " + path + b" HTTP/1.1\r\nHost: a\r\nContent-Length: %d\r\n\r\n" % len(body) + body
+    def line(limit, segs):
+        return "Z %d %s" % (limit, ",".join(pv.hexs(x) for x in segs if x))
+    for limit in ([64, 256, 4096] if tier == "quick" else [64, 100, 256, 1000, 4096, 20000]):
+        head_len = len(post(b"/p", b"")) + 2
+        for delta in (-2, -1, 0, 1, 2, 50):
+            blen = limit + delta - head_len - (len(str(limit)) - 1)
+            if blen < 1:
+                continue
+            msg = post(b"/p", b"b" * blen)
+            msg = post(b"/p", b"b" * (blen + (limit + delta - len(msg))))       # exact total = limit + delta
+            he = msg.index(b"\r\n\r\n") + 4
+            cases.append(line(limit, [msg]))
+            cases.append(line(limit, [msg[:he], msg[he:]]))
+            cases.append(line(limit, [msg[:he], msg[he:he + (len(msg) - he) // 2], msg[he + (len(msg) - he) // 2:]]))
+            if limit < len(msg):
+                cases.append(line(limit, [msg[:limit], msg[limit:]]))
+                cases.append(line(limit, [msg[:limit - 1], msg[limit - 1:limit + 1], msg[limit + 1:]]))
+    # a request hidden in the body of a refused one, delivered so that it starts a read (fixed 60bb285)
+    inner = b"GET /smuggled HTTP/1.1\r\nHost: x\r\n\r\n"
+    big = post(b"/big", b"x" * 302 + inner + b"y" * 60)
+    k = big.index(inner)
+    cases.append(line(256, [big[:195], big[195:k], big[k:k + len(inner)], big[k + len(inner):]]))
+    cases.append(line(256, [big[:100], big[100:300], big[300:k], inner, big[k + len(inner):]]))
+    # a malformed request, then a good one on the same connection; good ones in succession
+    cases.append(line(4096, [b"BOGUS\r\n\r\n", b"GET /ok HTTP/1.1\r\nHost: a\r\n\r\n"]))
+    cases.append(line(4096, [b"GET /a HTTP/1.1\r\nHost: a\r\n\r\n", b"GET /b HTTP/1.1\r\nHost: a\r\n\r\n", post(b"/c", b"123")]))
+    cases.append(line(4096, [b"GET /a HTTP/1.1\r\nHost: a\r\n\r\n", b"GET / HTTP/9.9\r\n\r\n", b"GET /b HTTP/1.1\r\nHost: a\r\n\r\n"]))
+    return cases
+
+
+# a request that is complete in time and answered late by a handler thread of its own: the idle scan does not know an answer is
+# pending (open finding C14-answer-pending-timed-out) - named case by case
+SLOW_ANSWER_CASES = ["Y 600 600 1800", "Y 400 2000 1500"]
+
+
+def run_slow(rep, tier, seed, spec):
+    exe = pv.build_harness("h_timeout", "plain")
+    cases = ["Y 600 600 100", "Y 1500 1500 300"] + SLOW_ANSWER_CASES
+    impl, _ = pv.run_parallel([exe], cases, shard=1, env={"PV_CASE_TIMEOUT": "30"})
+    for c, i in zip(cases, impl):
+        if i != "Y codes=200 closed=0":
+            what = ("a request that was complete within both time-outs was answered '%s' instead of its handler's (late) 200: it was timed out "
+                    "while its answer was pending (%s)" % (i, c))
+            k = spec.known(c, i, None, what)
+            if k:
+                rep.known_finding(k[0], k[1])
+            else:
+                rep.violation(what, {"kind": "input", "case": c, "impl_output": i, "how_to_run": "tools/check.py --property C14 --replay <this file>"})
+    return len(cases)
+
+
+def run_sizes(rep, tier, seed):
+    rng = pv.rng_for(seed, "C14-sizes")
+    exe = pv.build_harness("h_timeout", "plain")
+    drv = pv.build_model_driver()
+    cases = list(dict.fromkeys(size_cases(rng, tier)))
+    impl, _ = pv.run_parallel([exe], cases, shard=2, env={"PV_CASE_TIMEOUT": "30"})
+    model, _ = pv.run_parallel([drv, "timeout"], cases)
+    for c, i, m in zip(cases, impl, model):
+        t = c.split()
+        limit = int(t[1]); segs = [pv.unhex(x) for x in t[2].split(",")]
+        f = dict(x.split("=", 1) for x in i.split()[1:]) if i.startswith("Z ") else {}
+        what = None
+        if not f:
+            what = "live size case: %s" % i
+        else:
+            codes = [] if f["codes"] == "-" else f["codes"].split(",")
+            # property-level oracle, independent of the model: after the first refusal nothing more may happen
+            if "413" in codes and (codes.index("413") != len(codes) - 1):
+                what = "after a 413 the connection produced further responses (%s): the rest of a refused request was parsed as new requests" % f["codes"]
+            if "smuggled" in f.get("seen", ""):
+                what = "a request hidden in the body of a refused request was delivered to the handler (%s)" % f["seen"]
+        if not what and i != m:
+            what = "maximum request size %d, reads of %s bytes: the server did '%s', the size rule (HandlerModel.serve) says '%s'" % (limit, [len(x) for x in segs], i, m)
+        if what:
+            rep.violation(what, {"kind": "input", "case": c, "impl_output": i, "model_output": m,
+                                 "how_to_run": "tools/check.py --property C14 --replay <this file>"})
+    return {"harness": "h_timeout (Z)", "model_area": "timeout", "cases": len(cases), "compared": len(cases),
+            "rule": "live Http::Endpoint with maximum request size 64-20000: POST requests of total size limit-2..limit+50 delivered whole, head|body, "
+                    "in three reads, cut at and around the limit (each segment a separate read); a request hidden in the body of a refused one; "
+                    "a malformed request followed by good ones; status codes, handler calls and what the handler saw compared with HandlerModel.serve"}
+
+
 def run_timeouts(rep, tier, seed):
     rng = pv.rng_for(seed, "C14-timeouts")
     exe = pv.build_harness("h_timeout", "plain")
@@ -140,7 +230,12 @@ def run_timeouts(rep, tier, seed):
 
 class C14WithTimeouts(C14):
     def extra(self, rep, tier, seed):
-        return run_timeouts(rep, tier, seed)
+        r1 = run_timeouts(rep, tier, seed)
+        r2 = run_sizes(rep, tier, seed)
+        n3 = run_slow(rep, tier, seed, self)
+        return {"harness": "h_timeout", "model_area": "timeout", "cases": r1["cases"] + r2["cases"] + n3, "compared": r1["compared"] + r2["compared"],
+                "undecided_by_model_for_some_scan_phase": r1["undecided_by_model_for_some_scan_phase"],
+                "rule": r1["rule"] + " || " + r2["rule"]}
 
 
 def run(rep, tier, seed):
@@ -150,6 +245,18 @@ def run(rep, tier, seed):
 def replay(obj):
     s = C14()
     case = obj["case"]
+    if case.startswith("Y "):
+        exe = pv.build_harness("h_timeout", "plain")
+        i, _ = pv.run_parallel([exe], [case], env={"PV_CASE_TIMEOUT": "30"})
+        print("case :", case); print("impl :", i[0]); print("expected: Y codes=200 closed=0")
+        return 0 if i[0] == "Y codes=200 closed=0" else 1
+    if case.startswith("Z "):
+        exe = pv.build_harness("h_timeout", "plain")
+        drv = pv.build_model_driver()
+        i, _ = pv.run_parallel([exe], [case], env={"PV_CASE_TIMEOUT": "30"})
+        m, _ = pv.run_parallel([drv, "timeout"], [case])
+        print("case :", case[:300]); print("impl :", i[0]); print("model:", m[0])
+        return 0 if i[0] == m[0] else 1
     if case.startswith("W "):
         exe = pv.build_harness("h_timeout", "plain")
         drv = pv.build_model_driver()
